@@ -7,7 +7,7 @@ from pyvc.interp import Unsupported, AstFunc
 from pyvc.apply import apply_to_params
 from pyvc.state import Mk
 
-OPCK = 'functions.<OPC>'
+OPCK = 'functions.<OPC>'      # what dispatch assumes (the weak common contract)
 PLUGINK = 'functions.<PLUGIN>'
 
 
